@@ -361,6 +361,25 @@ def api_typed_two(rng, T):
     return spec
 
 
+def api_init_two_ok(rng, T):
+    """C07 with a second YncaApi object initialised against ANOTHER receiver (other subunits, other values) after the first one: each object
+    exposes its own receiver's subunits and values"""
+    spec = api_init(rng, T)
+    present = spec.get("present", [])[:3]
+    spec["present"] = present
+    spec["device"]["avail"] = {k: v for k, v in spec["device"]["avail"].items() if k in present}
+    spec["device"]["table"] = device_table(rng, T, ["SYS"] + present, p_answer=0.5)
+    spec["device"].pop("unsolicited", None)
+    spec["device"].pop("pause", None)
+    spec["device"]["latency"] = rng.choice([0.0, 0.02, 0.06])
+    spec["healthy"] = True
+    spec["quiet_first"] = True
+    optional = [s for s in T["consts"]["subunits"] if s != "SYS"]
+    oth = sorted(rng.sample(optional, rng.choice([0, 1, 2, 3])))
+    spec["other_device"] = {"type": "scripted", "latency": 0.0, "avail": {s_: "Ready" for s_ in oth}, "table": device_table(rng, T, ["SYS"] + oth, p_answer=0.6), "echo_put": True}
+    return spec
+
+
 def api_init_fault(rng, T, total_replies=None, total_bytes=None):
     """C14 flavour: initialize() with a fault at a chosen position of the start-up dialogue"""
     spec = api_init(rng, T)
